@@ -193,3 +193,172 @@ func VerifH_C09_IndexReadFrom() {
 	vCover("parsed", err == nil && idx != nil)
 	vCover("rejected", err != nil)
 }
+
+// ---------------------------------------------------------------- insertion index (C03)
+
+// VerifH_C03_LookupInsertionIndex: the in-memory insertion index (used by writable stores and by
+// readers that regenerate an index) keeps every loaded record: GetAll delivers the offsets of all
+// records with the queried digest, HasExactCID / HasMultihash report exactly the loaded CIDs and
+// multihashes, and ForEach delivers every record once - including records that share a digest.
+func VerifH_C03_LookupInsertionIndex() {
+	n := 1 + vChoose("n", 2)
+	if vTier() == 1 {
+		n = 1 + vChoose("n3", 3)
+	}
+	recs := vRecords(n)
+	ii := NewInsertionIndex()
+	if vChoose("how", 2) == 0 {
+		vAssert("load", ii.Load(recs) == nil)
+	} else {
+		for _, r := range recs {
+			ii.InsertNoReplace(r.Cid, r.Offset)
+		}
+	}
+	q := vCidT("q")
+	// GetAll: by digest only (the insertion index is keyed by digest)
+	vCheckLookup("", 0x0400, ii, recs, q)
+	exact, eerr := ii.HasExactCID(q)
+	wantExact, wantMh := false, false
+	for _, r := range recs {
+		if r.Cid.Equals(q) {
+			wantExact = true
+		}
+		if vBytesEq(r.Cid.Hash(), q.Hash()) {
+			wantMh = true
+		}
+	}
+	vAssert("has-exact-cid", eerr == nil && exact == wantExact)
+	hm, merr := ii.HasMultihash(q.Hash())
+	vAssert("has-multihash", merr == nil && hm == wantMh)
+	seen := 0
+	ferr := ii.ForEachCid(func(c cid.Cid, off uint64) error {
+		seen++
+		return nil
+	})
+	vAssert("foreach-visits-every-record", ferr == nil && seen == n)
+	vCover("shared-digest", n >= 2 && vBytesEq(vDigest(recs[0].Cid), vDigest(recs[1].Cid)))
+	vCover("exact-hit", wantExact)
+}
+
+// ---------------------------------------------------------------- reference serialiser (C11)
+
+func vLE32(v uint32) []byte { return []byte{byte(v), byte(v >> 8), byte(v >> 16), byte(v >> 24)} }
+func vLE64(v uint64) []byte {
+	return []byte{byte(v), byte(v >> 8), byte(v >> 16), byte(v >> 24), byte(v >> 32), byte(v >> 40), byte(v >> 48), byte(v >> 56)}
+}
+
+// vLess: strict lexicographic order of two digests of equal length (branching on bytes).
+func vLess(a, b []byte) bool {
+	for i := range a {
+		if a[i] != b[i] {
+			return a[i] < b[i]
+		}
+	}
+	return false
+}
+
+// vRefMultiWidth: the documented layout of a multi-width bucket list for the given records:
+// int32 bucket count, then per width ascending: uint32 width+8, uint64 byte length, entries
+// (digest ‖ LE64 offset) ascending by digest. Ties are left in input order (callers exclude them).
+func vRefMultiWidth(recs []Record) []byte {
+	var out []byte
+	widths := []int{}
+	for w := 0; w <= 4; w++ {
+		for _, r := range recs {
+			if len(vDigest(r.Cid)) == w {
+				widths = append(widths, w)
+				break
+			}
+		}
+	}
+	out = append(out, vLE32(uint32(len(widths)))...)
+	for _, w := range widths {
+		var bucket []Record
+		for _, r := range recs {
+			if len(vDigest(r.Cid)) == w {
+				// insertion sort by digest
+				pos := len(bucket)
+				for pos > 0 && vLess(vDigest(r.Cid), vDigest(bucket[pos-1].Cid)) {
+					pos--
+				}
+				bucket = append(bucket, Record{})
+				copy(bucket[pos+1:], bucket[pos:])
+				bucket[pos] = r
+			}
+		}
+		out = append(out, vLE32(uint32(w+8))...)
+		out = append(out, vLE64(uint64(len(bucket)*(w+8)))...)
+		for _, r := range bucket {
+			out = append(out, vDigest(r.Cid)...)
+			out = append(out, vLE64(r.Offset)...)
+		}
+	}
+	return out
+}
+
+// vRefIndexBytes: reference serialisation of WriteTo for both codecs.
+func vRefIndexBytes(codec multicodec.Code, recs []Record) []byte {
+	if codec == multicodec.CarIndexSorted {
+		return append([]byte{0x80, 0x08}, vRefMultiWidth(recs)...)
+	}
+	out := []byte{0x81, 0x08}
+	// hash codes ascending: identity (0x00) before sha2-256 (0x12)
+	var codes []uint64
+	for _, code := range []uint64{0x00, 0x12} {
+		for _, r := range recs {
+			if vCode(r.Cid) == code {
+				codes = append(codes, code)
+				break
+			}
+		}
+	}
+	out = append(out, vLE32(uint32(len(codes)))...)
+	for _, code := range codes {
+		var sub []Record
+		for _, r := range recs {
+			if vCode(r.Cid) == code {
+				sub = append(sub, r)
+			}
+		}
+		out = append(out, vLE64(code)...)
+		out = append(out, vRefMultiWidth(sub)...)
+	}
+	return out
+}
+
+// VerifH_C11_CanonicalBytes: the serialised index equals the documented canonical layout (buckets
+// ascending by hash code and width, entries ascending by digest) for every record set without
+// digest ties, with two digest widths and two hash codes in play; re-reading and re-writing
+// reproduces the same bytes.
+func VerifH_C11_CanonicalBytes() {
+	codec := vCodec("codec")
+	n := 2
+	if vTier() == 1 {
+		n = 2 + vChoose("n3", 2)
+	}
+	recs := make([]Record, n)
+	for i := range recs {
+		recs[i] = Record{Cid: vCidTW("rec"), Offset: vU64("off")}
+	}
+	for i := 0; i < n; i++ {
+		for j := i + 1; j < n; j++ {
+			vAssume(!vBytesEq(vDigest(recs[i].Cid), vDigest(recs[j].Cid)))
+		}
+	}
+	// Go leaves map iteration order unspecified: explore every order of the bucket maps
+	vMapOrderNondet(true)
+	idx, _ := New(codec)
+	vAssert("load", idx.Load(recs) == nil)
+	w := &vWriter{}
+	cnt, err := WriteTo(idx, w)
+	vMapOrderNondet(false)
+	vAssert("write-ok", err == nil && cnt == uint64(len(w.buf)))
+	vAssert("canonical-layout", vBytesEq(w.buf, vRefIndexBytes(codec, recs)))
+	back, err := ReadFrom(&vStream{data: w.buf})
+	vAssert("read-ok", err == nil)
+	w2 := &vWriter{}
+	_, err = WriteTo(back, w2)
+	vAssert("rewrite-identical", err == nil && vBytesEq(w.buf, w2.buf))
+	vCover("two-widths", len(vDigest(recs[0].Cid)) != len(vDigest(recs[1].Cid)))
+	vCover("two-codes", vCode(recs[0].Cid) != vCode(recs[1].Cid))
+}
